@@ -58,6 +58,32 @@ type Frame struct {
 	curBindings   []Val
 }
 
+// refMatches: d records (as a value, not an address) a reference to the source variable obj / name.
+func refMatches(d *ssa.DebugRef, obj types.Object, name string) bool {
+	if d.IsAddr {
+		return false
+	}
+	o := debugObj(d)
+	if o == nil {
+		return false
+	}
+	if obj != nil {
+		return o == obj
+	}
+	return o.Name() == name
+}
+
+// valueOnlyCand: a plain SSA value (not a phi, not a variable cell) may stand for a source variable only where a
+// debug reference of that variable to it has been passed - the same value can be assigned to the variable on one
+// branch only (`newFamily = rf`), and it dominates places the assignment does not.
+func valueOnlyCand(v ssa.Value) bool {
+	switch v.(type) {
+	case *ssa.Phi, *ssa.Alloc:
+		return false
+	}
+	return true
+}
+
 func (g *Gen) newFrame(fn *ssa.Function, parent *Frame) *Frame {
 	f := &Frame{g: g, fn: fn, vals: map[ssa.Value]Val{}, parent: parent, closures: map[ssa.Value]*closureInfo{},
 		freeVals: map[*ssa.FreeVar]Val{}, headerSt: map[*ssa.BasicBlock]*State{}, headerDec: map[*ssa.BasicBlock]Term{}}
@@ -1490,17 +1516,21 @@ func (f *Frame) varAtEnd(b, header *ssa.BasicBlock, name string, pos token.Pos, 
 	}
 	for blk := b; blk != nil && blk != header.Idom(); blk = blk.Idom() {
 		for i := len(blk.Instrs) - 1; i >= 0; i-- {
-			if d, isRef := blk.Instrs[i].(*ssa.DebugRef); isRef && !d.IsAddr {
-				// an assignment of a constant (`match := false`) is only visible as the debug reference
-				if c, isConst := d.X.(*ssa.Const); isConst && d.Object() != nil && (d.Object() == obj || (obj == nil && d.Object().Name() == name)) {
-					return f.val(c, c.Type()), true
+			if d, isRef := blk.Instrs[i].(*ssa.DebugRef); isRef && refMatches(d, obj, name) {
+				// the latest reference (assignment or use) of the variable that has been passed: its value then
+				// is its value now (an assignment of a constant is only visible this way)
+				if _, isAlloc := d.X.(*ssa.Alloc); !isAlloc {
+					if p, isPhi := d.X.(*ssa.Phi); isPhi && p.Block() == header && phiVal != nil {
+						return phiVal(p), true
+					}
+					return f.val(d.X, d.X.Type()), true
 				}
 			}
 			v, ok := blk.Instrs[i].(ssa.Value)
 			if !ok {
 				continue
 			}
-			match := cands[v]
+			match := cands[v] && !valueOnlyCand(v)
 			if p, ok := v.(*ssa.Phi); ok && !match && p.Comment == name {
 				match = true
 			}
@@ -1579,11 +1609,16 @@ func (f *Frame) varAt(b *ssa.BasicBlock, name string, pos token.Pos, st *State, 
 					continue
 				}
 			}
+			if d, isRef := in.(*ssa.DebugRef); isRef && refMatches(d, obj, name) {
+				if _, isAlloc := d.X.(*ssa.Alloc); !isAlloc {
+					return f.val(d.X, d.X.Type()), true
+				}
+			}
 			v, ok := in.(ssa.Value)
 			if !ok {
 				continue
 			}
-			match := cands[v]
+			match := cands[v] && !valueOnlyCand(v)
 			if p, ok := in.(*ssa.Phi); ok && !match && p.Comment == name && obj != nil && types.Identical(p.Type(), obj.Type()) {
 				match = true
 			}
